@@ -26,7 +26,8 @@ from feems.fuel import (Fuel, FuelConsumption, FuelSpecifiedBy, FuelConsumerClas
 
 THEOREMS = ["ttw_formula", "gwp_match", "factors_formula", "mixFactor_eq", "total", "total_zero", "series_eq_scalar", "gas_only",
             "gas_keeps_class", "imo_ignores_class", "imo_co2_only", "slip_by_class", "gas_classes_complete", "rows_unique",
-            "incomplete_rows", "prescribed_complete"]
+            "incomplete_rows", "prescribed_complete", "user_classless_serves_every_class", "user_class_row_first",
+            "user_classless_legacy_refused"]
 
 
 def ttw_of(row, no_slip=False):
@@ -47,7 +48,9 @@ def expected_total(fuels, cls):
             c = cls
             if cls is not None and "LNG" in cls.name and f.fuel_type != TypeFuel.NATURAL_GAS:
                 c = Cls.ICE
-            row = next(r for r in f.ghg_emission_factor_tank_to_wake if r.fuel_consumer_class == c)
+            rows = f.ghg_emission_factor_tank_to_wake
+            # a user's record that names no class holds for every consumer
+            row = next(iter([r for r in rows if r.fuel_consumer_class == c] + [r for r in rows if r.fuel_consumer_class is None]))
         ttw = ttw + m * ttw_of(row)
         nos = nos + m * ttw_of(row, True)
         wtt = wtt + m * f.ghg_emission_factor_well_to_tank_gco2eq_per_mj * f.lhv_mj_per_g
@@ -77,6 +80,16 @@ def gen_case(rng, idx):
         user = {"lhv": u["lhv_mj_per_g"], "wtt": u["ghg_emission_factor_well_to_tank_gco2eq_per_mj"],
                 "rows": [[r.co2_factor_gco2_per_gfuel, r.ch4_factor_gch4_per_gfuel, r.n2o_factor_gn2o_per_gfuel, r.c_slip_percent,
                           None if r.fuel_consumer_class is None else r.fuel_consumer_class.value] for r in u["ghg_emission_factor_tank_to_wake"]]}
+        # which consumer classes the user's records name: all of them (+ a class-less one), only the class-less one ("the factors do not
+        # depend on the consumer", the default of the record type), or a few classes next to it
+        cover = str(rng.choice(["all", "classless-only", "some"], p=[0.5, 0.35, 0.15]))
+        if cover == "classless-only":
+            user["rows"] = [r for r in user["rows"] if r[4] is None]
+        elif cover == "some":
+            user["rows"] = [r for r in user["rows"] if r[4] is None or rng.random() < 0.4]
+            if rng.random() < 0.5:
+                user["rows"] = user["rows"][::-1]
+        core.axis("user_rows", cover)
     int_series = bool(n_steps > 0 and rng.random() < 0.15)       # a hand-written whole-number series in an integer array
     if int_series:
         for f in fuels:
@@ -126,6 +139,9 @@ def run_case(ctx, case, model=True):
             res = fc.get_total_co2_emissions(fuel_consumer_class=cls)
         except Exception as e:
             ctx.count("emissions_rejected", core.error_class(e))
+            if case["user"] is not None and any(r[4] is None for r in case["user"]["rows"]):
+                ctx.fail("predicate", "user-fuel-with-classless-record-refused", f"user-specified fuels with a record that names no consumer class, class {cls.name}: "
+                         f"{type(e).__name__}: {e}", where)
     # the record is changed after a first evaluation (a mass re-assigned, the pilot fuel appended later): the next evaluation sees the change
     if res is not None and len(case["fuels"]) >= 1 and case["idx"] % 3 == 1:
         try:
